@@ -160,6 +160,10 @@ func TestC15(t *testing.T) {
 		if rapid.IntRange(0, 4).Draw(rt, "inline_variant") == 0 {
 			// the same inline object name with another layout in a second packet
 			cfg.PostProgram = func(p *dsl.Program) { dsl.ShareInlineVariant(rt, p) }
+		} else if rapid.IntRange(0, 3).Draw(rt, "second_match") == 0 {
+			// two match fields in one packet, each on its own key; both keys stand before both tables
+			cfg.WantMatch = true
+			cfg.PostProgram = func(p *dsl.Program) { dsl.AddSecondMatch(rt, p) }
 		}
 		k := genXCase(rt, cfg, nm, vc, false)
 		// the dissector is for the root packet
